@@ -468,12 +468,18 @@ static void both_point (const pt_t *p)
 	vf_stat_add (st_trans, r);
 	/* now decode on the same session: every symbol but `lost` sources (the first `lost` ones) */
 	for (i = lost; i < n; i++) if (of_decode_with_new_symbol (s, sym[i], (UINT32) i) != OF_STATUS_OK) { snprintf (sig, sizeof sig, "codec=%s|role=both|call=DWS|kind=status-not-ok", cn); viol ("C10", sig); break; }
-	if (!of_is_decoding_complete (s)) of_finish_decoding (s);
-	vf_stat_add (st_trans, n - lost + 1);
-	if (lost <= r) {
-		if (!of_is_decoding_complete (s)) { if (p->codec != 3) { snprintf (sig, sizeof sig, "codec=%s|role=both|kind=not-complete-with-k-symbols", cn); viol ("C02", sig); } }
-		else if (of_get_source_symbols_tab (s, src) != OF_STATUS_OK) { snprintf (sig, sizeof sig, "codec=%s|role=both|kind=source-table-unavailable", cn); viol ("C10", sig); }
-		else for (i = 0; i < k; i++) if (!src[i] || memcmp (src[i], sym[i], (size_t) len)) { snprintf (sig, sizeof sig, "codec=%s|role=both|kind=wrong-source-symbol", cn); viol ("C01", sig); break; }
+	{
+		int fst = -1, cpl, gst, nav = 0, allok = 1;
+		if (!of_is_decoding_complete (s)) fst = (int) of_finish_decoding (s);
+		vf_stat_add (st_trans, n - lost + 1);
+		cpl = of_is_decoding_complete (s) ? 1 : 0;
+		gst = (int) of_get_source_symbols_tab (s, src);
+		if (gst == OF_STATUS_OK) for (i = 0; i < k; i++) { if (src[i]) nav++; if (!src[i] || memcmp (src[i], sym[i], (size_t) len)) allok = 0; } else { allok = 0; for (i = 0; i < k; i++) src[i] = NULL; }
+		/* C10 clauses on a session that has both roles */
+		if (cpl != (gst == OF_STATUS_OK && nav == k)) { snprintf (sig, sizeof sig, "codec=%s|role=both|kind=completion-flag-disagrees-with-source-table(%d,%d)", cn, cpl, nav == k); viol ("C10", sig); }
+		if (fst >= 0 && ((fst == OF_STATUS_OK) != (cpl == 1) || (fst != OF_STATUS_OK && fst != OF_STATUS_FAILURE))) { snprintf (sig, sizeof sig, "codec=%s|role=both|call=FINISH|kind=status-%d-with-complete=%d", cn, fst, cpl); viol ("C10", sig); }
+		if (gst == OF_STATUS_OK) for (i = 0; i < k; i++) if (src[i] && memcmp (src[i], sym[i], (size_t) len)) { snprintf (sig, sizeof sig, "codec=%s|role=both|kind=wrong-source-symbol", cn); viol ("C01", sig); break; }
+		if (lost <= r && p->codec != 3 && !(cpl && allok)) { snprintf (sig, sizeof sig, "codec=%s|role=both|kind=not-complete-with-k-symbols", cn); viol ("C02", sig); }
 	}
 	of_release_codec_instance (s);
 	for (i = 0; i < k; i++) { int own = 0; for (j = 0; j < n; j++) if (src[i] == sym[j]) own = 1; if (src[i] && !own) free (src[i]); }
